@@ -616,6 +616,8 @@ type Recurrent struct {
 	Direction   bool `json:"direction"`
 	// ActAlphaBeta: activation_alpha / activation_beta lists present (parsed by the operators)
 	ActAlphaBeta bool `json:"act_alpha_beta"`
+	// NoY: the Y output is not requested (empty name in first position); only the final states are returned
+	NoY bool `json:"no_y"`
 }
 
 func gates(kind string) int {
@@ -648,6 +650,7 @@ func DrawRecurrent(r *rng.R, kind string) Recurrent {
 	}
 	c.Direction = r.Chance(1, 5)
 	c.ActAlphaBeta = r.Chance(1, 8)
+	c.NoY = r.Chance(1, 6)
 	if r.Chance(1, 4) {
 		switch kind {
 		case "RNN":
@@ -715,6 +718,9 @@ func (c Recurrent) OpCase(rw, rd *rng.R, seq, batch int, stateAsData bool) OpCas
 		}
 		outs = []string{"Y", "Y_h", "Y_c"}
 	}
+	if c.NoY {
+		outs[0] = ""
+	}
 	// trailing absent operands are dropped (ONNX allows omitting them)
 	for len(ops) > 3 && ops[len(ops)-1].V == nil {
 		ops = ops[:len(ops)-1]
@@ -723,5 +729,5 @@ func (c Recurrent) OpCase(rw, rd *rng.R, seq, batch int, stateAsData bool) OpCas
 }
 
 func (c Recurrent) String() string {
-	return fmt.Sprintf("%s(in=%d,hid=%d,B=%v,h0=%v,c0=%v,P=%v,lbr=%d/%v,acts=%v,input_forget=%d,dir=%v)", c.Kind, c.Input, c.Hidden, c.HasB, c.HasH0, c.HasC0, c.HasP, c.LBR, c.ExplicitLBR, c.Acts, c.InputForget, c.Direction)
+	return fmt.Sprintf("%s(in=%d,hid=%d,B=%v,h0=%v,c0=%v,P=%v,lbr=%d/%v,acts=%v,input_forget=%d,dir=%v,noY=%v)", c.Kind, c.Input, c.Hidden, c.HasB, c.HasH0, c.HasC0, c.HasP, c.LBR, c.ExplicitLBR, c.Acts, c.InputForget, c.Direction, c.NoY)
 }
